@@ -803,7 +803,8 @@ From SqfsV Require Import C19.ObjInst2.
    are never the last ones.  The case "the reader holds the LAST reference" is NOT covered by
    those theorems (the cascade into the destroy hook of the shared object); the model itself
    handles it, as the computed life cycles below show, and the harness observes it on the
-   implementation.  A general theorem without [slack] is open. *)
+   implementation.  The general theorems without [slack] are at the end of this file
+   (release_safe_general, survivor_intact_general, copy_wellformed_general ...). *)
 Example ex_no_slack_not_covered :
   let '(h, o) := mk_dir 1%N 3%nat 2%N 2%N in copyable 3%nat h o KDir = false.
 Proof. vm_compute. reflexivity. Qed.
@@ -831,7 +832,8 @@ Proof. vm_compute. do 6 eexists. repeat split; reflexivity. Qed.
    layer-(i) machine of C19/ObjMach.v.  Operations of the readers go through the SHARED
    compressor cell and are not instances of [local_op] as it is defined (it demands that every
    cell outside the object's footprint is unchanged); for them the independence of original
-   and copy is observed by the twin comparison of the tie, not proved. *)
+   and copy is proved at the end of this file under the weaker notion [shared_preserving_op]
+   (interleaving_independent_shared, meta_read_is_shared_preserving ...). *)
 Theorem id_to_index_is_local : local_op 1%nat KId N (Z * N) run_id_to_index step_id_to_index.
 Proof. exact id_to_index_local. Qed.
 Print Assumptions id_to_index_is_local.
@@ -963,3 +965,421 @@ Theorem hard_link_filter_loses_inode_refuted :
     | None => False
     end.
 Proof. exact hl_filter_loses_inode. Qed.
+
+(* ======================================================================================
+   Closing the audit's findings 1 and 2 (session 3, builder H2).
+
+   Finding 1 - [slack].  The theorems below replace the hypothesis "somebody OUTSIDE holds a
+   further reference to every shared object" by [counted]: every reference the object (pair)
+   holds is counted (cnt R s <= refcount s).  "<" is the old slack case, "=" is "the reader
+   (or the pair original + copy) holds the LAST reference to file / compressor" - the creator
+   dropped its own reference.  When a count reaches 0, sqfs_drop enters the shared object's
+   destroy hook; the theorems follow it: the shared objects are themselves well-formed objects
+   whose cells nobody else owns and that hold no references of their own ([closed_obj], depth m:
+   file and the five compressors), pairwise disjoint and disjoint from the object (pair)
+   ([env_sep]).  [obj_inv] / [pair_inv_g] = well-formed + [env_ok] (closed, separated, counted).
+   [dead h R] = the shared objects whose count equals the number of references in R - the ones
+   that die with R; [dead_fp] their cells.  Every heap the object constructors of the model
+   produce with counted references is in the domain (the ex_general_domain examples below).
+   ====================================================================================== *)
+From SqfsV Require Import C19.ObjGenDefs C19.ObjGenBase C19.ObjGenDrop C19.ObjGenPair C19.ObjGenCheck
+     C19.ObjShared C19.ObjSharedDefs C19.ObjSharedInst C19.ObjGenLife C19.ObjSharedEx.
+
+(* [slack] is the special case of [counted] in which nothing dies *)
+Theorem slack_is_special_case : forall h R, slack h R -> counted h R /\ dead h R = nil.
+Proof. exact (fun h R S => conj (slack_counted h R S) (slack_dead_nil h R S)). Qed.
+Print Assumptions slack_is_special_case.
+
+(* ---- copy_wellformed_general / copy_refines_value_general: copy_wellformed and
+   copy_refines_value without [slack].  In addition: every shared object keeps its cells and
+   its abstraction and has one more count per reference the original holds. *)
+Theorem copy_wellformed_general : forall HK, hooks_ok HK = true ->
+  forall m n fuel h o k,
+    (n <= fuel)%nat -> obj_inv m n h o k ->
+    exists h',
+      sqfs_copy HK fuel h o = ObjHeap.Ok (h', Some (length h)) /\
+      grown (length h) (all_refs n h o) h h' /\
+      wf_obj n h' (length h) k /\ rc_of h' (length h) = 1%N /\
+      (forall x, In x (fp n h' (length h)) -> (length h <= x < length h')%nat) /\
+      NoDup (fp n h' (length h)) /\
+      all_refs n h' (length h) = all_refs n h o /\
+      pair_inv_g m n h' o (length h) k /\
+      (forall s, In s (all_refs n h o) ->
+                 fp m h' s = fp m h s /\ abs_obj m h' s = abs_obj m h s /\
+                 rc_of h' s = (rc_of h s + N.of_nat (cnt (all_refs n h o) s))%N).
+Proof.
+  intros HK OK m n fuel h o k Hf I.
+  destruct (copy_establishes_g HK OK m n fuel h o k Hf I) as (h' & E & G & SF & P & _ & _ & _ & _ & Sh).
+  destruct SF as (A & B & C & D & E' & _). exists h'. auto 12.
+Qed.
+Print Assumptions copy_wellformed_general.
+
+Theorem copy_refines_value_general : forall HK, hooks_ok HK = true ->
+  forall m n fuel h o k,
+    (n <= fuel)%nat -> obj_inv m n h o k ->
+    exists h',
+      sqfs_copy HK fuel h o = ObjHeap.Ok (h', Some (length h)) /\
+      abs_obj n h' (length h) = abs_obj n h o /\
+      abs_obj n h' o = abs_obj n h o.
+Proof.
+  intros HK OK m n fuel h o k Hf I.
+  destruct (copy_establishes_g HK OK m n fuel h o k Hf I) as (h' & E & _ & SF & _ & _ & _ & AO & _).
+  destruct SF as (_ & _ & _ & _ & _ & AC). exists h'. auto.
+Qed.
+Print Assumptions copy_refines_value_general.
+
+(* ---- release_safe_general: release_safe without [slack] (and without the unused table of
+   copy hooks).  Both orders are Ok - no call through NULL, no access to a freed cell, no double
+   free, also inside the destroy hooks of file / compressor when the pair held their last
+   references - and end in the same heap, which is the initial one with the cells of both
+   footprints AND of every shared object whose last holders the two were freed, and one count
+   per reference taken from the other shared objects. *)
+Theorem release_safe_general : forall m n fuel h o c k,
+    (n + m + 1 <= fuel)%nat -> pair_inv_g m n h o c k -> (rc_of h o <= 1)%N -> (rc_of h c <= 1)%N ->
+    exists h1 h2 h1' h2',
+      sqfs_drop DK fuel h o = ObjHeap.Ok h1 /\ sqfs_drop DK fuel h1 c = ObjHeap.Ok h2 /\
+      sqfs_drop DK fuel h c = ObjHeap.Ok h1' /\ sqfs_drop DK fuel h1' o = ObjHeap.Ok h2' /\
+      h2' = h2 /\
+      released h h2 ((fp n h o ++ fp n h c) ++ dead_fp m h (all_refs n h o ++ all_refs n h c))
+               (all_refs n h o ++ all_refs n h c).
+Proof. exact release_either_order_g. Qed.
+Print Assumptions release_safe_general.
+
+(* how to read the [released] of release_safe_general (F = the cells, R = the references of
+   the pair): all of F is freed; a shared object whose count was exactly the number of
+   references in R is freed with all its cells; a shared object with an outside holder is still
+   a closed well-formed object with the same cells and abstraction and has its count back;
+   no other cell changed *)
+Theorem release_general_reading : forall m h h2 F R,
+    released h h2 (F ++ dead_fp m h R) R -> env_ok m h F R ->
+    (forall x, In x F -> is_freed h2 x) /\
+    (forall s, In s R -> N.of_nat (cnt R s) = rc_of h s -> forall x, In x (fp m h s) -> is_freed h2 x) /\
+    (forall s, In s R -> (N.of_nat (cnt R s) < rc_of h s)%N ->
+               closed_obj m h2 s /\ fp m h2 s = fp m h s /\ abs_obj m h2 s = abs_obj m h s /\
+               rc_of h2 s = (rc_of h s - N.of_nat (cnt R s))%N) /\
+    (forall x, ~ In x F -> ~ In x (shared_fp m h R) -> nth_error h2 x = nth_error h x).
+Proof. exact released_reading. Qed.
+Print Assumptions release_general_reading.
+
+(* a single object (no copy): the same *)
+Theorem drop_safe_general : forall m n fuel h a k,
+    (n + m + 1 <= fuel)%nat -> obj_inv m n h a k -> (rc_of h a <= 1)%N ->
+    exists h', sqfs_drop DK fuel h a = ObjHeap.Ok h' /\
+               released h h' (fp n h a ++ dead_fp m h (all_refs n h a)) (all_refs n h a).
+Proof. exact (fun m n fuel h a k Hf I => drop_ok_g DK DK_ok m n fuel Hf h a k (proj1 I) (proj2 I)). Qed.
+Print Assumptions drop_safe_general.
+
+(* ---- survivor_intact_general: after releasing one of the pair the other is what it was -
+   well-formed, same abstraction, internal pointers alive - and still satisfies [obj_inv]: every
+   shared object it references is alive, with the same cells and abstraction *)
+Theorem survivor_intact_general : forall m n fuel h o c k,
+    (n + m + 1 <= fuel)%nat -> pair_inv_g m n h o c k -> (rc_of h o <= 1)%N ->
+    exists h1,
+      sqfs_drop DK fuel h o = ObjHeap.Ok h1 /\
+      wf_obj n h1 c k /\ abs_obj n h1 c = abs_obj n h c /\ touch_obj h1 c = ObjHeap.Ok tt /\
+      obj_inv m n h1 c k /\ all_refs n h1 c = all_refs n h c /\
+      (forall s, In s (all_refs n h c) ->
+                 closed_obj m h1 s /\ fp m h1 s = fp m h s /\ abs_obj m h1 s = abs_obj m h s /\
+                 rc_of h1 s = (rc_of h s - N.of_nat (cnt (all_refs n h o) s))%N).
+Proof. exact survivor_intact_g. Qed.
+Print Assumptions survivor_intact_general.
+
+(* the decidable check implies the hypotheses of the general theorems *)
+Theorem copyable_general_sound : forall m n h a k, copyable_g m n h a k = true -> obj_inv m n h a k.
+Proof. exact copyable_g_ok. Qed.
+Print Assumptions copyable_general_sound.
+
+(* ---- non-vacuity, the same object kinds with and without an outside holder: a directory
+   reader (two meta readers sharing file and compressor, three cached nodes) whose meta readers
+   hold the LAST references (file 2, cmp 2), one with outside holders (3, 3), one mixed (file
+   last, compressor not); a data reader with fragment table and both buffers, last holder
+   (1, 1) and not (2, 2); a meta reader and an xattr reader holding the last references *)
+Definition chkg (p : heap * addr) (k : kind) : bool := let '(h, o) := p in copyable_g 1%nat 3%nat h o k.
+
+Example ex_general_domain_readers :
+  (chkg (mk_dir 1%N 3%nat 2%N 2%N) KDir && chkg (mk_dir 1%N 3%nat 3%N 3%N) KDir && chkg (mk_dir 1%N 3%nat 2%N 5%N) KDir &&
+   chkg (mk_data 1%N 2%nat true true 1%N 1%N) KData && chkg (mk_data 1%N 2%nat true true 2%N 2%N) KData &&
+   chkg (mk_meta 1%N 1%N 1%N) KMeta && chkg (mk_xrd 1%N true true true 2%N 2%N) KXrd)%bool = true.
+Proof. vm_compute. reflexivity. Qed.
+
+(* ... of which the old check accepts only those with an outside holder *)
+Example ex_general_domain_beyond_slack :
+  (chk (mk_dir 1%N 3%nat 2%N 2%N) KDir, chk (mk_dir 1%N 3%nat 3%N 3%N) KDir, chk (mk_dir 1%N 3%nat 2%N 5%N) KDir,
+   chk (mk_data 1%N 2%nat true true 1%N 1%N) KData, chk (mk_data 1%N 2%nat true true 2%N 2%N) KData)
+  = (false, true, false, false, true).
+Proof. vm_compute. reflexivity. Qed.
+
+(* ... and every other builder shape (no shared objects at all) is in the domain as well *)
+Example ex_general_domain_rest :
+  (chkg (mk_flat KXz 1%N) KXz && chkg (mk_res KGzip 1%N) KGzip && chkg (mk_res KFile 1%N) KFile &&
+   chkg (mk_table KId 1%N 3%nat) KId && chkg (mk_table KFrag 1%N 0%nat) KFrag &&
+   chkg (mk_xwr 1%N 2%nat 3%nat 4%nat 3%nat) KXwr && chkg (mk_xrd 1%N false false false 1%N 1%N) KXrd)%bool = true.
+Proof. vm_compute. reflexivity. Qed.
+
+(* references that are NOT counted (two references, count 1) are outside the domain, and there
+   the second drop of a reference does crash: the hypothesis is not an artefact *)
+Example ex_uncounted_rejected :
+  let '(h, o) := mk_dir 1%N 0%nat 1%N 2%N in
+  copyable_g 1%nat 3%nat h o KDir = false /\ sqfs_drop DK 5%nat h o = ObjHeap.Crash UseAfterFree.
+Proof. vm_compute. split; reflexivity. Qed.
+
+(* the hypotheses of release_safe_general, jointly, for the last-holder directory reader
+   (through copy_wellformed_general), and what the theorem then yields *)
+Example ex_release_safe_general_hyps :
+  exists m n h o c k, (n + m + 1 <= 5)%nat /\ pair_inv_g m n h o c k /\ (rc_of h o <= 1)%N /\ (rc_of h c <= 1)%N /\
+                      dead h (all_refs n h o ++ all_refs n h c) <> nil.
+Proof.
+  pose (p := mk_dir 1%N 3%nat 2%N 2%N).
+  assert (C : copyable_g 1%nat 3%nat (fst p) (snd p) KDir = true) by (vm_compute; reflexivity).
+  pose proof (copyable_general_sound _ _ _ _ _ C) as I.
+  destruct (copy_wellformed_general HK_fixed hooks_fixed_ok 1%nat 3%nat 3%nat (fst p) (snd p) KDir (le_n _) I)
+    as (h' & E & G & W' & RC & _ & _ & AR & P & _).
+  exists 1%nat, 3%nat, h', (snd p), (length (fst p)), KDir.
+  assert (E2 : sqfs_copy HK_fixed 3%nat (fst p) (snd p) = ObjHeap.Ok (h', Some (length (fst p)))) by exact E.
+  vm_compute in E2. inversion E2; subst h'.
+  split; [auto|]. split; [exact P|]. split; [vm_compute; discriminate|]. split; [rewrite RC; vm_compute; discriminate|].
+  vm_compute. discriminate.
+Qed.
+
+(* computed life cycles on the same kinds: last holder - everything is freed, file and
+   compressor included, in both orders; outside holder - the counts are back *)
+Example ex_last_holder_life_data :
+  let '(h, o) := mk_data 1%N 2%nat true true 1%N 1%N in
+  exists h1 c h2 h3 h2' h3',
+    sqfs_copy HK_fixed 3%nat h o = ObjHeap.Ok (h1, Some c) /\
+    rc_of h1 a_file = 2%N /\ rc_of h1 a_cmp = 2%N /\
+    sqfs_drop DK 5%nat h1 o = ObjHeap.Ok h2 /\ sqfs_drop DK 5%nat h2 c = ObjHeap.Ok h3 /\
+    sqfs_drop DK 5%nat h1 c = ObjHeap.Ok h2' /\ sqfs_drop DK 5%nat h2' o = ObjHeap.Ok h3' /\
+    h3 = h3' /\ live_count h3 = 0%nat.
+Proof. vm_compute. do 6 eexists. repeat split; reflexivity. Qed.
+
+Example ex_mixed_holder_life_dir :
+  let '(h, o) := mk_dir 1%N 3%nat 2%N 5%N in
+  exists h1 c h2 h3,
+    sqfs_copy HK_fixed 3%nat h o = ObjHeap.Ok (h1, Some c) /\
+    sqfs_drop DK 5%nat h1 c = ObjHeap.Ok h2 /\ sqfs_drop DK 5%nat h2 o = ObjHeap.Ok h3 /\
+    is_freed h3 a_file /\ is_freed h3 1%nat /\ rc_of h3 a_cmp = 3%N /\ live_count h3 = 2%nat.
+Proof. vm_compute. do 4 eexists. repeat split; reflexivity. Qed.
+
+(* ======================================================================================
+   Finding 2 - [local_op].  [shared_preserving_op] (C19/ObjShared.v) is the weaker notion the
+   read operations of the readers meet: cells outside the object's footprint AND outside the
+   shared objects are untouched; of every shared object the top cell (header, reference count,
+   hooks, configuration, pointers) is untouched, it stays closed and well-formed with the same
+   cells, and a VIEW of its abstraction is kept ([cfg_view]: for a gzip / zstd compressor all
+   but the stream cell, for file and flat compressors everything) - the stream / scratch cell
+   it owns may change; answer and new value are a function of the object's abstract value and
+   of the views of the shared objects it references ([step] gets them as a list, [senv]).
+   ====================================================================================== *)
+
+(* the new notion is weaker: every [local_op] is shared-preserving (so the id table operations
+   id_to_index_is_local / index_to_id_is_local above are instances too) *)
+Theorem shared_preserving_weaker_than_local :
+  forall m n k view (op ans : Type) (run : op -> heap -> addr -> heap * ans) (step : op -> aval -> aval * ans),
+    local_op n k op ans run step ->
+    shared_preserving_op m n k view op ans run (fun _ => step).
+Proof. exact local_is_shared_preserving. Qed.
+Print Assumptions shared_preserving_weaker_than_local.
+
+(* interleaving_independent for shared-preserving operations, on pairs without [slack]: for
+   every schedule each side's answers are those of the layer-(i) machine - parametrised by the
+   views of the shared objects, which no operation of either side changes - run on that side's
+   own operations; the pair invariant is kept *)
+Theorem interleaving_independent_shared :
+  forall (m n : nat) (k : kind) (view : aval -> aval) (op ans : Type)
+         (run : op -> heap -> addr -> heap * ans) (step : list aval -> op -> aval -> aval * ans),
+    shared_preserving_op m n k view op ans run step ->
+    forall s h o c h' rs,
+      pair_inv_g m n h o c k -> exec op ans run s h o c = (h', rs) ->
+      pair_inv_g m n h' o c k /\
+      rc_of h' o = rc_of h o /\ rc_of h' c = rc_of h c /\
+      all_refs n h' o = all_refs n h o /\ all_refs n h' c = all_refs n h c /\
+      senv m view h' (all_refs n h o) = senv m view h (all_refs n h o) /\
+      senv m view h' (all_refs n h c) = senv m view h (all_refs n h c) /\
+      abs_obj n h' o = fst (exec_abs op ans (step (senv m view h (all_refs n h o))) (side true s) (abs_obj n h o)) /\
+      side true rs = snd (exec_abs op ans (step (senv m view h (all_refs n h o))) (side true s) (abs_obj n h o)) /\
+      abs_obj n h' c = fst (exec_abs op ans (step (senv m view h (all_refs n h c))) (side false s) (abs_obj n h c)) /\
+      side false rs = snd (exec_abs op ans (step (senv m view h (all_refs n h c))) (side false s) (abs_obj n h c)).
+Proof. exact ObjShared.interleaving_independent_shared. Qed.
+Print Assumptions interleaving_independent_shared.
+
+(* ... hence: in every interleaving each object's answers equal those it gives when it is run
+   alone (the same heap, the other object's operations removed from the schedule) *)
+Theorem interleaving_equals_solo_run :
+  forall (m n : nat) (k : kind) (view : aval -> aval) (op ans : Type)
+         (run : op -> heap -> addr -> heap * ans) (step : list aval -> op -> aval -> aval * ans),
+    shared_preserving_op m n k view op ans run step ->
+    forall s h o c h' rs h1 rs1 h2 rs2,
+      pair_inv_g m n h o c k ->
+      exec op ans run s h o c = (h', rs) ->
+      exec op ans run (only true s) h o c = (h1, rs1) ->
+      exec op ans run (only false s) h o c = (h2, rs2) ->
+      side true rs = side true rs1 /\ side false rs = side false rs2.
+Proof. exact interleaving_equals_solo. Qed.
+Print Assumptions interleaving_equals_solo_run.
+
+(* copy_ops_release without [slack] and for shared-preserving operations: copy; any schedule;
+   release in either order.  (release_general_reading applies to the last conjunct.) *)
+Theorem copy_ops_release_shared : forall HK, hooks_ok HK = true ->
+  forall (m n : nat) (k : kind) (view : aval -> aval) (op ans : Type)
+         (run : op -> heap -> addr -> heap * ans) (step : list aval -> op -> aval -> aval * ans),
+    shared_preserving_op m n k view op ans run step ->
+    forall fuel h o s,
+      (n + m + 1 <= fuel)%nat -> obj_inv m n h o k -> (rc_of h o <= 1)%N ->
+      exists h1 h2 rs h3 h4,
+        sqfs_copy HK fuel h o = ObjHeap.Ok (h1, Some (length h)) /\
+        exec op ans run s h1 o (length h) = (h2, rs) /\
+        side true rs = snd (exec_abs op ans (step (senv m view h (all_refs n h o))) (side true s) (abs_obj n h o)) /\
+        side false rs = snd (exec_abs op ans (step (senv m view h (all_refs n h o))) (side false s) (abs_obj n h o)) /\
+        pair_inv_g m n h2 o (length h) k /\
+        sqfs_drop DK fuel h2 o = ObjHeap.Ok h3 /\ sqfs_drop DK fuel h3 (length h) = ObjHeap.Ok h4 /\
+        (exists h3', sqfs_drop DK fuel h2 (length h) = ObjHeap.Ok h3' /\ sqfs_drop DK fuel h3' o = ObjHeap.Ok h4) /\
+        released h2 h4 ((fp n h2 o ++ fp n h2 (length h)) ++
+                        dead_fp m h2 (all_refs n h2 o ++ all_refs n h2 (length h)))
+                 (all_refs n h2 o ++ all_refs n h2 (length h)).
+Proof. exact life_cycle_shared. Qed.
+Print Assumptions copy_ops_release_shared.
+
+(* ---- a real reader operation is an instance.  Meta reader "seek + read" (C19/ObjSharedDefs.v:
+   run_meta): operand and reader state select the compressed block in the bytes of the shared
+   file ([req]), the SHARED compressor unpacks it - cmp->do_block = [blk configuration
+   stream-state input], which overwrites the stream cell the shared compressor owns -, the reader
+   stores the block in its own state and answers ([fin]).  It is shared-preserving for every
+   req / fin, PROVIDED do_block's output is a function of (configuration, input): it may not
+   depend on what an earlier call - of the original or of the copy - left in the stream.
+   Seed C10-3 (gzip: inflateReset moved behind the inflate call, so that a block is unpacked in
+   whatever state the previous call left) and finding F22 (gzip_create_copy building the copy's
+   stream from the options instead of the original's stream state) are exactly violations of
+   this proviso: C10's tie / this property's twin comparison are what checks it on the C code. *)
+Theorem meta_read_is_shared_preserving :
+  forall (P A : Type) (blk : list N -> list N -> list N -> list N * list N),
+    (forall cfg z z' i, snd (blk cfg z i) = snd (blk cfg z' i)) ->
+    forall (req : P -> list N -> list N -> list N) (fin : P -> list N -> list N -> list N * A) (dflt : A),
+      shared_preserving_op 1%nat 1%nat KMeta cfg_view P A
+                           (run_meta P A blk req fin dflt) (step_meta P A blk req fin dflt).
+Proof. exact run_meta_shared_preserving. Qed.
+Print Assumptions meta_read_is_shared_preserving.
+
+(* the hypotheses of copy_ops_release_shared, jointly, with that operation on a meta reader
+   that holds the LAST references to file and compressor *)
+Example ex_copy_ops_release_shared_hyps :
+  let '(h, o) := ex_meta 1%N 1%N in
+  hooks_ok HK_fixed = true /\
+  shared_preserving_op 1%nat 1%nat KMeta cfg_view N (list N) run_ok step_ok /\
+  (1 + 1 + 1 <= 3)%nat /\ obj_inv 1%nat 1%nat h o KMeta /\ (rc_of h o <= 1)%N /\
+  dead h (all_refs 1%nat h o) = [a_file; a_cmp].
+Proof.
+  split; [exact hooks_fixed_ok|].
+  split; [exact (meta_read_is_shared_preserving N (list N) blk_ok blk_ok_stateless req_ex fin_ex nil)|].
+  split; [auto|]. split; [apply copyable_general_sound; vm_compute; reflexivity|].
+  split; [vm_compute; discriminate|vm_compute; reflexivity].
+Qed.
+
+(* that life cycle computed: the interleaved answers, each side's answers when run alone
+   (equal), and at the end nothing is left alive - file and compressor died with the pair *)
+Example ex_meta_read_last_holder :
+  ex_life run_ok (ex_meta 1%N 1%N) ex_sched =
+  Some ([(true, [11; 12; 110; 120]); (false, [11; 12; 130; 140]);
+         (true, [110; 120; 120; 130]); (false, [130; 140; 110; 120])]%N, Some (0%nat, 0%N, 0%N)) /\
+  side true (match ex_life run_ok (ex_meta 1%N 1%N) (only true ex_sched) with Some (rs, _) => rs | None => nil end)
+  = [[11; 12; 110; 120]; [110; 120; 120; 130]]%N /\
+  side false (match ex_life run_ok (ex_meta 1%N 1%N) (only false ex_sched) with Some (rs, _) => rs | None => nil end)
+  = [[11; 12; 130; 140]; [130; 140; 110; 120]]%N.
+Proof. exact ex_meta_last_holder_life. Qed.
+
+(* with outside holders (file 2, compressor 3): same answers, counts back at 1 and 2 *)
+Example ex_meta_read_outside_holder :
+  ex_life run_ok (ex_meta 2%N 3%N) ex_sched =
+  Some ([(true, [11; 12; 110; 120]); (false, [11; 12; 130; 140]);
+         (true, [110; 120; 120; 130]); (false, [130; 140; 110; 120])]%N, Some (4%nat, 1%N, 2%N)).
+Proof. exact ex_meta_outside_holder_life. Qed.
+
+(* the proviso is necessary: with a do_block whose output depends on the stream state the
+   previous call left (blk_bad), the copy's answers in the interleaving are not the answers it
+   gives alone *)
+Theorem stateful_do_block_breaks_independence_refuted :
+  (~ forall cfg z z' i, snd (blk_bad cfg z i) = snd (blk_bad cfg z' i)) /\
+  exists rs rs1 fin fin1,
+    ex_life run_bad (ex_meta 1%N 1%N) ex_sched = Some (rs, fin) /\
+    ex_life run_bad (ex_meta 1%N 1%N) (only false ex_sched) = Some (rs1, fin1) /\
+    side false rs <> side false rs1.
+Proof.
+  split; [exact blk_bad_not_stateless|].
+  destruct ex_stateful_breaks as (rs & rs1 & f & f1 & A & B & _ & _ & C). exists rs, rs1, f, f1. auto.
+Qed.
+
+(* ---- a second real instance: a data reader block read (C19/ObjSharedData.v: run_dblock;
+   sqfs_data_reader_t = [Obj frag_tbl; Ref cmp; Ref file; Own data_block; Own frag_block; D],
+   nesting depth 2).  The compressed block is taken from the bytes of the shared file, unpacked
+   by the SHARED compressor, and lands in the reader's OWN data_block buffer; fragment table and
+   fragment buffer are untouched.  Same proviso. *)
+From SqfsV Require Import C19.ObjSharedData.
+
+Theorem data_block_read_is_shared_preserving :
+  forall (P A : Type) (blk : list N -> list N -> list N -> list N * list N)
+         (req : P -> list N -> list N -> list N) (fin : P -> list N -> list N -> list N * A) (dflt : A),
+    (forall cfg z z' i, snd (blk cfg z i) = snd (blk cfg z' i)) ->
+    shared_preserving_op 1%nat 2%nat KData cfg_view P A
+                         (run_dblock P A blk req fin dflt) (step_dblock P A blk req fin dflt).
+Proof. exact run_dblock_shared_preserving. Qed.
+Print Assumptions data_block_read_is_shared_preserving.
+
+(* a data reader with fragment table (two entries) and both buffers: block reads on original and
+   copy interleaved, each side's answers when run alone (equal); holding the last references to
+   file and compressor (everything freed at the end) and with outside holders (counts back at 2
+   and 1); both heaps satisfy the hypotheses *)
+Example ex_data_block_read :
+  ex_life run_dblock_ok (ex_data 1%N 1%N) ex_sched =
+  Some ([(true, [4096; 110; 120]); (false, [4096; 130; 140]);
+         (true, [110; 120; 120; 130]); (false, [130; 140; 110; 120])]%N, Some (0%nat, 0%N, 0%N)) /\
+  side true (match ex_life run_dblock_ok (ex_data 1%N 1%N) (only true ex_sched) with Some (rs, _) => rs | None => nil end)
+  = [[4096; 110; 120]; [110; 120; 120; 130]]%N /\
+  side false (match ex_life run_dblock_ok (ex_data 1%N 1%N) (only false ex_sched) with Some (rs, _) => rs | None => nil end)
+  = [[4096; 130; 140]; [130; 140; 110; 120]]%N /\
+  ex_life run_dblock_ok (ex_data 3%N 2%N) ex_sched =
+  Some ([(true, [4096; 110; 120]); (false, [4096; 130; 140]);
+         (true, [110; 120; 120; 130]); (false, [130; 140; 110; 120])]%N, Some (4%nat, 2%N, 1%N)) /\
+  copyable_g 1%nat 2%nat (fst (ex_data 1%N 1%N)) (snd (ex_data 1%N 1%N)) KData = true /\
+  copyable_g 1%nat 2%nat (fst (ex_data 3%N 2%N)) (snd (ex_data 3%N 2%N)) KData = true.
+Proof. exact ex_data_last_holder_life. Qed.
+
+(* ---- a third instance: an xattr reader lookup (C19/ObjSharedXrd.v: run_xlookup;
+   sqfs_xattr_reader_t = [D; Own id_block_starts; Obj idrd; Obj kvrd], nesting depth 2).  The lookup
+   runs an operation of the id meta reader and then, with an operand computed from that answer, an
+   operation of the key/value meta reader: two exclusively owned sub-readers that reference the
+   SAME shared file and compressor - the pair situation inside one object.  EVERY shared-preserving
+   operation of a meta reader (for instance meta_read_is_shared_preserving above, with its proviso)
+   lifts to the xattr reader. *)
+From SqfsV Require Import C19.ObjSharedXrd.
+
+Theorem xattr_lookup_is_shared_preserving :
+  forall (P1 A1 : Type) (view : aval -> aval)
+         (runM : P1 -> heap -> addr -> heap * A1) (stepM : list aval -> P1 -> aval -> aval * A1),
+    shared_preserving_op 1%nat 1%nat KMeta view P1 A1 runM stepM ->
+    forall (P : Type) (sel1 : P -> list N -> P1) (sel2 : P -> list N -> A1 -> P1) (dflt : A1 * A1),
+      shared_preserving_op 1%nat 2%nat KXrd view P (A1 * A1)
+                           (run_xlookup P1 A1 runM P sel1 sel2 dflt) (step_xlookup P1 A1 stepM P sel1 sel2 dflt).
+Proof. exact run_xlookup_shared_preserving. Qed.
+Print Assumptions xattr_lookup_is_shared_preserving.
+
+(* an xattr reader with id_block_starts and both sub-readers, the lookup built from the meta reader
+   operation of the examples above: interleaved on original and copy, each side alone (equal);
+   holding the last references (file 2, compressor 2: everything freed) and with outside holders
+   (3, 4: counts back at 1 and 2); both heaps satisfy the hypotheses; and with the stateful back end
+   the answers of an interleaving differ from the solo answers *)
+Example ex_xattr_lookup :
+  ex_life_g _ run_xl_ok (ex_xrd 2%N 2%N) ex_xsched =
+  Some ([(true, ([11; 12; 110; 120], [11; 12; 120; 130])); (false, ([11; 12; 130; 140], [11; 12; 110; 120]));
+         (true, ([110; 120; 120; 130], [120; 130; 130; 140]))]%N, Some (0%nat, 0%N, 0%N)) /\
+  side true (match ex_life_g _ run_xl_ok (ex_xrd 2%N 2%N) (only true ex_xsched) with Some (rs, _) => rs | None => nil end)
+  = [([11; 12; 110; 120], [11; 12; 120; 130]); ([110; 120; 120; 130], [120; 130; 130; 140])]%N /\
+  side false (match ex_life_g _ run_xl_ok (ex_xrd 2%N 2%N) (only false ex_xsched) with Some (rs, _) => rs | None => nil end)
+  = [([11; 12; 130; 140], [11; 12; 110; 120])]%N /\
+  ex_life_g _ run_xl_ok (ex_xrd 3%N 4%N) ex_xsched =
+  Some ([(true, ([11; 12; 110; 120], [11; 12; 120; 130])); (false, ([11; 12; 130; 140], [11; 12; 110; 120]));
+         (true, ([110; 120; 120; 130], [120; 130; 130; 140]))]%N, Some (4%nat, 1%N, 2%N)) /\
+  copyable_g 1%nat 2%nat (fst (ex_xrd 2%N 2%N)) (snd (ex_xrd 2%N 2%N)) KXrd = true /\
+  copyable_g 1%nat 2%nat (fst (ex_xrd 3%N 4%N)) (snd (ex_xrd 3%N 4%N)) KXrd = true /\
+  side false (match ex_life_g _ run_xl_bad (ex_xrd 2%N 2%N) ex_xsched with Some (rs, _) => rs | None => nil end)
+  <> side false (match ex_life_g _ run_xl_bad (ex_xrd 2%N 2%N) (only false ex_xsched) with Some (rs, _) => rs | None => nil end).
+Proof. exact ex_xrd_lookup_life. Qed.
